@@ -72,6 +72,9 @@ std::vector<Val> typedValues()
         H({ { QStringLiteral("h"), LL(P53) } }),
         SL({}), SL({ QStringLiteral("x"), QStringLiteral(""), QString(QChar(0x2028)), QStringLiteral("\r\n") }),
         S(QStringLiteral("")), S(QStringLiteral("plain")),
+        // values that compare equal under QVariant's converting == but are different JSON values
+        S(QStringLiteral("1")), S(QStringLiteral("01")), S(QStringLiteral("0")), S(QStringLiteral("true")), S(QStringLiteral("false")), S(QStringLiteral("0.5")), D(1.0, "1"), LL(1), LL(0),
+        L({ S(QStringLiteral("1")), S(QStringLiteral("2")) }), L({ I(1), I(2) }), SL({ QStringLiteral("1"), QStringLiteral("2") }), M({ { QStringLiteral("k"), S(QStringLiteral("1")) } }), M({ { QStringLiteral("k"), I(1) } }),
     };
 }
 
@@ -81,6 +84,7 @@ struct Case {
     std::vector<std::pair<QString, Val>> attrs;
     qint64 timeMs = 1704067200123LL;
     std::string desc;
+    QString preFmt;      // non-null: a formatter upstream has already given the message a formatted text
 };
 
 std::string hex(const QByteArray &b) { return b.toHex().toStdString(); }
@@ -99,19 +103,31 @@ std::string metaCommon(const Case &c)
     return m + "}";
 }
 
+bool g_force = false;   // inside runSeq: the shard decision was taken for the whole sequence
 void run(const Case &c, const char *mode)   // mode: "jc" "ji" "s"
 {
-    if ((g_idx++ % g_nshards) != g_shard) return;
+    if (!g_force && (g_idx++ % g_nshards) != g_shard) return;
     vdev::nowMs = c.timeMs;
     QMessageLogContext ctx(c.file, c.line, c.function, c.category);
     LogMessage m(TYPES[c.type], ctx, c.msg);
     for (auto &a : c.attrs) m.setAttribute(a.first, a.second.v);
+    if (!c.preFmt.isNull()) m.setFormattedMessage(c.preFmt);
     QString out = mode[0] == 's' ? fSentry->format(m) : (mode[1] == 'c' ? fCompact : fIndent)->format(m);
     sum.cases++; sum.transitions++;
     sum.counters[std::string("cases_") + mode]++;
     QByteArray u = out.toUtf8();
     if (QString::fromUtf8(u) != out) sum.counters["output_not_roundtripping_utf8"]++;
     printf("C\t{\"mode\":\"%s\",%s}\t%s\n", mode, metaCommon(c).c_str(), hex(u).c_str());
+}
+
+// consecutive messages through the SAME formatter instance (a formatter is shared by every message of a pipeline): all of one
+// sequence run in one shard, back to back, each judged on its own
+void runSeq(const std::vector<Case> &cs, const char *mode)
+{
+    if ((g_idx++ % g_nshards) != g_shard) return;
+    g_force = true;
+    for (auto &c : cs) run(c, mode);
+    g_force = false;
 }
 
 template <class F> void forStrings(int maxLen, F f)   // all strings of <= maxLen symbols, shortest first
@@ -172,6 +188,19 @@ void jsonSpace(int len)
         for (auto n : NAMES) for (size_t i = 0; i < tv.size(); i++) {
             Case c; c.type = int(i % 5); c.desc = "near-miss attribute name"; c.msg = QStringLiteral("m"); c.attrs.push_back({ QString::fromUtf8(n), tv[i] }); run(c, mode);
         }
+        // F: every ordered pair of typed values as CONSECUTIVE messages with the same attribute name (and the first one repeated after)
+        for (size_t i = 0; i < tv.size(); i++) for (size_t j = 0; j < tv.size(); j++) {
+            Case a; a.desc = "consecutive messages, same attribute name (1st)"; a.msg = QStringLiteral("m1"); a.attrs.push_back({ QStringLiteral("n"), tv[i] });
+            Case b; b.desc = "consecutive messages, same attribute name (2nd)"; b.msg = QStringLiteral("m2"); b.type = int(j % 5); b.attrs.push_back({ QStringLiteral("n"), tv[j] });
+            Case c2 = a; c2.desc = "consecutive messages, same attribute name (3rd = 1st again)"; c2.msg = QStringLiteral("m3");
+            runSeq({ a, b, c2 }, mode);
+        }
+        // G: the message already carries a formatted text (a formatter ran upstream): the JSON still reports the message text
+        forStrings(1, [&](const QString &s, long long i) {
+            Case c; c.type = int(i % 5); c.desc = "message with formatted text set upstream"; c.msg = s; c.preFmt = QStringLiteral("F<") + s + QStringLiteral(">");
+            c.attrs.push_back({ QStringLiteral("k"), S(s) }); run(c, mode);
+            Case d = c; d.preFmt = QStringLiteral(""); d.desc = "message with EMPTY formatted text set upstream"; run(d, mode);
+        });
         // E: many attributes at once
         { Case c; c.desc = "40 attributes"; c.msg = QStringLiteral("m"); for (int i = 0; i < 40; i++) c.attrs.push_back({ QStringLiteral("a%1").arg(i) + SYM[i % SYM.size()], tv[i % tv.size()] }); run(c, mode); }
     }
@@ -189,6 +218,20 @@ void sentrySpace(int len)
         if (s.size() <= 4) { Case d; d.type = int((i + 1) % 5); d.desc = "string as extra attribute value"; d.msg = QStringLiteral("m"); d.attrs.push_back({ QStringLiteral("k"), S(s) }); run(d, "s");
                              Case e; e.type = int((i + 2) % 5); e.desc = "string as routed attribute value"; e.msg = QStringLiteral("m"); e.attrs.push_back({ QString::fromLatin1(ROUTED[i % 8]), S(s) }); run(e, "s"); }
     });
+    // A'': the message already carries a formatted text; consecutive events with differing routed attribute sets through one formatter
+    forStrings(1, [&](const QString &s, long long i) {
+        Case c; c.type = int(i % 5); c.desc = "message with formatted text set upstream"; c.msg = s; c.preFmt = QStringLiteral("F<") + s + QStringLiteral(">"); run(c, "s");
+        Case d = c; d.msg = QStringLiteral("x").repeated(120) + s; d.desc = "long message with formatted text set upstream"; run(d, "s");
+    });
+    for (int m1 = 0; m1 < 256; m1 += 5) for (int m2 = 0; m2 < 256; m2 += 7) {
+        std::vector<Case> seq;
+        for (int mask : { m1, m2, 0, m1 }) {
+            Case c; c.desc = "consecutive events with differing routed attributes"; c.msg = QStringLiteral("m"); c.type = mask % 5;
+            for (int b = 0; b < 8; b++) if (mask & (1 << b)) c.attrs.push_back({ QString::fromLatin1(ROUTED[b]), S(QStringLiteral("v%1_%2").arg(b).arg(mask)) });
+            seq.push_back(c);
+        }
+        runSeq(seq, "s");
+    }
     // B: categories x types x function x file
     for (auto cat : CATS) for (int ty = 0; ty < 5; ty++) for (auto fn : FNS) for (auto f : SRC) {
         Case c; c.type = ty; c.category = cat; c.function = fn; c.file = f; c.line = (ty * 7) - 3; c.desc = "category x type x function x file"; c.msg = QStringLiteral("hello"); run(c, "s");
